@@ -194,9 +194,13 @@ def roundtrip(cls, obj, base_kwargs, kv, kwargs=None, wire_ok=()):
         if eq is False and _equal_modulo_absent_lists(obj, r):
             return 'ok', '', b      # an absent repeated field is None in one and [] in the other
         if eq is False:
+            del _LOST[:]
             if kwargs is not None and _equal_modulo_undefined_fields(cls, obj, r, kwargs, base_kwargs,
                                                                       kv, b, wire_ok):
                 return 'ok-version-gated', '', b
+            if _LOST:
+                return 'field-lost', 'the encoding omits %s although this version writes that field in ' \
+                    'other contexts' % ', '.join(sorted(set(_LOST))), b
             return 'not-equal', 'decoded value != original', b
     return 'ok', '', b
 
@@ -234,6 +238,24 @@ def cross_decode(cls, obj, base_kwargs, b, kd):
         if eq is False and not _equal_modulo_absent_lists(v1, v2):
             return 'accepted-not-idempotent', 'decode(encode(decode(b))) != decode(b)'
     return 'fine', ''
+
+
+def _on_wire_versions(with_field, without_field):
+    """The versions under which the field makes a difference to the encoding."""
+    out = []
+    for k2 in KV:
+        a = b = None
+        try:
+            a = shapes.encode(with_field, k2)
+        except Exception:   # noqa
+            pass
+        try:
+            b = shapes.encode(without_field, k2)
+        except Exception:   # noqa
+            pass
+        if (a is None) != (b is None) or (a is not None and a != b):
+            out.append(k2)
+    return out
 
 
 def _on_wire_somewhere(with_field, without_field):
@@ -286,6 +308,11 @@ def _equal_modulo_undefined_fields(cls, obj, decoded, kwargs, base, kv, b, wire_
             continue
         try:
             if shapes.encode(o2, kv) == b and ((p, _vkey(v)) in wire_ok or _on_wire_somewhere(obj, o2)):
+                # ... unless THIS version is known to write the field in another context: then the
+                # version defines it, and losing it here is a loss, not version gating
+                if (p, _vkey(v), kv) in _WIRE_V.get(cls.__name__, ()):
+                    _LOST.append(p)
+                    continue
                 dropped.append(p)
         except Exception:   # noqa
             pass
@@ -343,7 +370,7 @@ def check_class(name, part, sweep):
                 statuses[kv] = (st, detail, b)
             part.count('status_' + st)
             part.counters.setdefault('_out', set()).add((name, st))
-            if st in ('decode-fails', 'not-equal', 'reencode-differs', 'reencode-fails', 'aliased'):
+            if st in ('decode-fails', 'not-equal', 'reencode-differs', 'reencode-fails', 'aliased', 'field-lost'):
                 part.violation("%s|%s|%s" % (name, st, _pkey(label, kw, base)),
                                "%s(%s) under KMIP %s: %s (%s)" % (
                                    name, ', '.join('%s=%s' % (p, shapes.describe(kw[p]))
@@ -408,7 +435,9 @@ def check_class(name, part, sweep):
     part.sample({'class': name, 'params': [p for p, d in R.params[name]][:8]})
 
 
+_LOST = []        # fields found lost (not version-gated) by the last _equal_modulo_undefined_fields call
 _WIRE = {}
+_WIRE_V = {}      # class name -> {(parameter, value key, version)}: versions proven to write the field
 
 
 def _vkey(v):
@@ -435,12 +464,13 @@ def wire_params(name):
     cls = R.classes[name]
     base = R._base_kwargs(name)
     ok = set()
+    okv = _WIRE_V.setdefault(cls.__name__, set())
     for label, kw in R.values(name, sweep=True):
         if label[0] == 'lattice':
             todo = [p for p, v in kw.items() if v is not None and p not in base]
         else:
             todo = [label[1]]
-        todo = [p for p in todo if (p, _vkey(kw[p])) not in ok]
+        todo = [p for p in todo if not all((p, _vkey(kw[p]), kv_) in okv for kv_ in KV)]
         if not todo:
             continue
         obj, _ = shapes.try_construct(cls, kw)
@@ -448,8 +478,13 @@ def wire_params(name):
             continue
         for p in todo:
             o2, _ = shapes.try_construct(cls, {k: (None if k == p else x) for k, x in kw.items()})
-            if o2 is not None and _on_wire_somewhere(obj, o2):
+            if o2 is None:
+                continue
+            vs = _on_wire_versions(obj, o2)
+            if vs:
                 ok.add((p, _vkey(kw[p])))
+                for kv_ in vs:
+                    okv.add((p, _vkey(kw[p]), kv_))
     _WIRE[name] = ok
     return ok
 
